@@ -24,6 +24,8 @@ func main() {
 	switch f.Engine {
 	case "sched":
 		engineRegSched(f, res)
+	case "race":
+		engineRegRace(f, res)
 	default:
 		if !engineC17(f, res) {
 			rep.Fatal(f, "unknown engine %q", f.Engine)
